@@ -343,6 +343,15 @@ func consts() {
 		fmt.Printf("  (%s, %s, %v)%s\n", coqStr(t.fn), coqStr(t.via), t.clean, sep)
 	}
 	fmt.Println("].")
+	fmt.Println("(* size constants of the write path (go/ast over rockredis/*.go, common/limit.go, common/type.go): the length sweep of the harness is built from them *)")
+	fmt.Print("Definition size_constants : list (gname * N) := [")
+	for i, c := range sizeConstants() {
+		if i > 0 {
+			fmt.Print("; ")
+		}
+		fmt.Printf("(%s, %d%%N)", coqStr(c.Name), c.Value)
+	}
+	fmt.Println("].")
 	fmt.Printf("Definition commit_then_write_sites : list gname := %s.\n", coqStrList(commitThenWriteSites()))
 	fmt.Printf("Definition merge_scan_cmds : list gname := %s.\n", coqStrList(mscan))
 	fmt.Printf("Definition full_scan_cmds : list gname := %s.\n", coqStrList(mfull))
